@@ -23,6 +23,9 @@ IMPORTS = 'From PV Require Import Michelson.Compare Michelson.Collections Michel
 KEY_TYPES = [('string',), ('int',), ('nat',), ('bytes',), ('pair', ('int',), ('string',)), ('or', ('int',), ('string',)),
              ('option', ('int',)), ('address',), ('key_hash',), ('pair', ('string',), ('pair', ('bool',), ('nat',))),
              ('or', ('unit',), ('bytes',)), ('pair', ('address',), ('nat',)),
+             # key types whose OPTIMIZED form differs from the readable one: the key hash is the hash of the packed optimized form
+             ('timestamp',), ('timestamp',), ('key',), ('signature',), ('chain_id',), ('address',), ('key_hash',),
+             ('pair', ('timestamp',), ('key_hash',)), ('option', ('chain_id',)), ('or', ('timestamp',), ('key',)), ('pair', ('signature',), ('timestamp',)),
              ('pair', ('int',), ('pair', ('string',), ('pair', ('bool',), ('nat',)))),      # 4-comb: legacy PACK keeps nested pairs
              ('pair', ('pair', ('nat',), ('nat',)), ('pair', ('string',), ('pair', ('int',), ('pair', ('bytes',), ('unit',)))))]
 
@@ -69,6 +72,12 @@ def _enc(v) -> bytes:
         return bytes([5, TAG[k.capitalize()]]) + _enc(v[1])
     if k == 'kh':
         return b'\x0a' + _len4(bytes([V.CURVES.index(v[1])]) + v[2])
+    if k == 'key':
+        return b'\x0a' + _len4(bytes([V.CURVES.index(v[1])]) + v[2])
+    if k == 'sig':
+        return b'\x0a' + _len4(v[1])
+    if k == 'cid':
+        return b'\x0a' + _len4(v[1])
     if k == 'addr':
         kind, h, ep = v[1], v[2], v[3]
         if kind.startswith('tz'):
@@ -451,6 +460,8 @@ def gen_two_maps(rng):
 
 def _small(v):
     """integers below 2^80 (a key is rendered many times in one case)"""
+    if v[0] == 'int' and abs(v[1]) >= 2 ** 40:
+        return ('int', abs(v[1]) % (2 ** 31))          # (for timestamps: inside the RFC3339 range, where readable != optimized)
     if v[0] == 'int':
         return ('int', v[1] if abs(v[1]) < 2 ** 80 else (abs(v[1]) % 2 ** 80) * (1 if v[1] > 0 else -1))
     if v[0] == 'pair':
@@ -562,6 +573,76 @@ def _show(i):
     return f'{i[0].upper()} {V.value_src(i[1])}' + (f' := {opt_src(i[2])}' if len(i) > 2 else '')
 
 
+def python_object_stream(ctx, rng, reported):
+    """sets / maps / big_maps built by from_python_object from UNORDERED Python lists / dicts (bare and inside a pair):
+    the emitted Micheline must be strictly increasing in the Michelson order and must parse back to the same object."""
+    from pytezos.michelson.parse import michelson_to_micheline
+    from pytezos.michelson.types.base import MichelsonType
+    key_kinds = [('int', ('int',), lambda: rng.randrange(-50, 50), lambda z: ('int', z)),
+                 ('nat', ('nat',), lambda: rng.randrange(0, 100), lambda z: ('int', z)),
+                 ('string', ('string',), lambda: ''.join(rng.choice('abAB0 ~') for _ in range(rng.randrange(0, 4))), lambda z: ('str', z)),
+                 ('(pair int string)', ('pair', ('int',), ('string',)), lambda: (rng.randrange(-3, 3), rng.choice(['', 'a', 'B', 'ab'])),
+                  lambda z: ('pair', ('int', z[0]), ('str', z[1])))]
+    for n in range(ctx.n(40, 400)):
+        ksrc, kt, gen, conv = rng.choice(key_kinds)
+        keys = []
+        while len(keys) < rng.randrange(2, 7):
+            k = gen()
+            if k not in keys:
+                keys.append(k)
+        rng.shuffle(keys)
+        if sorted(keys, key=lambda k: V.spec_key(kt)(conv(k))) == keys:
+            keys.reverse()
+        shape = rng.choice(['set', 'map', 'big_map', 'pair_big_map', 'pair_map'])
+        d = {k: i for i, k in enumerate(keys)}
+        if shape == 'set':
+            tsrc, obj, lazy = f'set {ksrc}', list(keys), False
+        elif shape == 'map':
+            tsrc, obj, lazy = f'map {ksrc} nat', d, False
+        elif shape == 'big_map':
+            tsrc, obj, lazy = f'big_map {ksrc} nat', d, True
+        elif shape == 'pair_big_map':
+            tsrc, obj, lazy = f'pair (big_map %ledger {ksrc} nat) (nat %total)', {'ledger': d, 'total': 3}, True
+        else:
+            tsrc, obj, lazy = f'pair (map %m {ksrc} nat) (set %s {ksrc})', {'m': d, 's': list(keys)}, False
+
+        def go():
+            ty = MichelsonType.match(michelson_to_micheline(tsrc))
+            val = ty.from_python_object(obj)
+            expr = val.to_micheline_value(lazy_diff=True) if lazy else val.to_micheline_value()
+            back = ty.from_micheline_value(expr)
+            return expr, back.to_python_object(lazy_diff=True) if lazy else back.to_python_object()
+        ok, res = lib.call(go)
+        why = None
+        if not ok:
+            why = f'from_python_object / to_micheline_value / re-parse raised {type(res).__name__}: {res}'[:300]
+        else:
+            expr, back = res
+            seqs = [x for x in ([expr] if isinstance(expr, list) else expr.get('args', [])) if isinstance(x, list)]
+            for seq in seqs:
+                ks = [(e['args'][0] if isinstance(e, dict) and e.get('prim') == 'Elt' else e) for e in seq]
+                vals = []
+                for m in ks:
+                    if 'int' in m:
+                        vals.append(('int', int(m['int'])))
+                    elif 'string' in m:
+                        vals.append(('str', m['string']))
+                    else:
+                        vals.append(('pair', ('int', int(m['args'][0]['int'])), ('str', m['args'][1]['string'])))
+                if not all(V.spec_cmp(kt, vals[i], vals[i + 1]) < 0 for i in range(len(vals) - 1)):
+                    why = f'the emitted literal is not strictly increasing in the Michelson order: {[V.value_src(x) for x in vals]}'
+                if len(vals) != len(keys):
+                    why = f'{len(vals)} elements emitted for {len(keys)} keys'
+        ctx.case(('pyobj', tsrc, repr(obj)), nontrivial=True, kind='from_python_object:' + shape,
+                 sample={'type': tsrc, 'object': repr(obj)[:200]})
+        if why and reported < 3:
+            reported += 1
+            ctx.violation('collection built from an unordered Python object: ' + why,
+                          {'type': tsrc, 'object': repr(obj),
+                           'repro': f"MichelsonType.match(michelson_to_micheline({tsrc!r})).from_python_object({obj!r}).to_micheline_value(lazy_diff={lazy})"})
+    return reported
+
+
 def run(ctx: lib.Ctx) -> None:
     rng = ctx.rng
     V.install_sorted_check()
@@ -643,6 +724,8 @@ def run(ctx: lib.Ctx) -> None:
         else:
             cases.append((inp, coq_out))
             meta.append((t, pool, ptr, chain, lit, script, out, why, src, vt))
+    reported = python_object_stream(ctx, rng, reported)
+
     # ---- two on-chain big_maps with different ids and overlapping keys in one run
     twocases, twometa = [], []
     for _ in range(ctx.n(40, 500)):
